@@ -143,3 +143,24 @@ def narrow_axioms(formulas):
         for f in formulas:
             walk(f)
     return out
+
+
+def realize_axioms(formulas):
+    """for a witness search: tie every uninterpreted MUL/UDIV/UREM application
+    to the real operation (makes the query as hard as the real arithmetic, so
+    it is only used together with hints that fix one operand)"""
+    out, seen = [], set()
+
+    def visit(t):
+        if t.get_id() in seen or not z3.is_app(t):
+            return
+        seen.add(t.get_id())
+        for table, op in ((_MUL, lambda a, b: a * b), (_DIV, z3.UDiv), (_REM, z3.URem)):
+            for w, fn in table.items():
+                if t.decl().eq(fn):
+                    out.append(t == op(t.arg(0), t.arg(1)))
+        for c in t.children():
+            visit(c)
+    for f in formulas:
+        visit(f)
+    return out
